@@ -219,9 +219,10 @@ MANIFEST = dict(
          "array keeps its length and no id exceeds the input's maximum -- VnBest, VnFirst (full), FiducciaMattheyses (every "
          "bucket-order oracle: no panic, terminates within initial cut + 2 passes, completed runs stay in {0,1}; an accepted "
          "oracle exists), KernighanLin (PARTIAL: at most two part ids; labels only permuted), ArcSwap (every reachable state "
-         "under every schedule: length kept, ids below part_count; PARTIAL no-panic / no-deadlock / well-founded stepping / "
-         "completion for the f64 share of the code when |cap| + total weight < 2^53 -- classical-reals axioms -- and for the "
-         "exact share without bound); KMeans (FULL, concrete binary64 model mirroring k_means.rs, every family of split trees, every "
+         "under every schedule: length kept, ids below part_count; no-panic / no-deadlock / well-founded stepping / "
+         "completion FULL for i64 weights at the share the translator reads from the source -- divided in the weight type since "
+         "fix 71662c8, C02_arcswap_i64, axiom-free; the former f64 round trip is kept as a PARTIAL theorem for |cap| + total "
+         "weight < 2^53, classical-reals axioms); KMeans (FULL, concrete binary64 model mirroring k_means.rs, every family of split trees, every "
          "setting, any weights, rotation matrix as input: a valid partition with as many points as ids gives Ok, same length, ids of "
          "the input only; the model is compared bit for bit with the implementation's final partition under six pools twice). "
          "Plus a run of all six algorithms on valid partitions under six pool sizes with overflow checks and debug assertions "
